@@ -11,3 +11,6 @@ import TLX.Props.Translated.Demux
 import TLX.Props.Translated.Ports
 import TLX.Props.Translated.TlsSess
 import TLX.Props.Translated.Reasm
+import TLX.Props.Translated.Frames
+import TLX.Props.Translated.Checksum
+import TLX.Props.Translated.Suites
